@@ -6,8 +6,10 @@ package main
 
 import (
 	"bufio"
+	"bytes"
 	"fmt"
 	"os"
+	"strings"
 
 	"verifharness/c04"
 	"verifharness/c06"
@@ -35,6 +37,8 @@ var handlers = map[string]func([]string) string{
 	"C20": c20.Handle,
 	"PE":  pe.Handle,
 	"E2E": e2e.Handle,
+	"C09": c09.Handle,
+	"C19": c19.Handle,
 }
 
 // gens: property -> generators whose ops make up its correspondence run
@@ -67,11 +71,33 @@ var customImpl = map[string]func(){
 	"C07": c07.Impl,
 }
 
+// only keeps the generated lines whose op kind (second token) is listed
+func filtered(g genFunc, kinds ...string) genFunc {
+	keep := map[string]bool{}
+	for _, k := range kinds {
+		keep[k] = true
+	}
+	return func(w *bufio.Writer, seed uint64, tier string) {
+		var buf bytes.Buffer
+		bw := bufio.NewWriter(&buf)
+		g(bw, seed, tier)
+		bw.Flush()
+		for _, line := range strings.Split(buf.String(), "\n") {
+			f := strings.Fields(line)
+			if len(f) >= 2 && keep[f[1]] {
+				fmt.Fprintln(w, line)
+			}
+		}
+	}
+}
+
 func forProp(prop string, g func(*bufio.Writer, uint64, string, string)) genFunc {
 	return func(w *bufio.Writer, seed uint64, tier string) { g(w, seed, tier, prop) }
 }
 
 func init() {
+	// C05 (digests are what the specifications prescribe): PE image hash ops, PE checksum ops, APK merkle ops, ECDSA width ops
+	gens["C05"] = []genFunc{forProp("C05", pe.Gen), filtered(c09.Gen, "cksum", "fixpe", "fixpehex", "merkle"), filtered(c19.Gen, "ecdsa", "ecdsasign")}
 	for _, p := range []string{"C01", "C02", "C03", "C08", "C11"} {
 		gens[p] = append(gens[p], forProp(p, pe.Gen))
 		if p == "C01" || p == "C03" || p == "C08" {
